@@ -1,29 +1,46 @@
 #!/usr/bin/env python3
-"""property-preserving edits (/verif/preserving): every listed check must stay green (exit 0) on a scratch copy with the edit"""
+"""property-preserving edits (/verif/preserving): every listed check must stay green (exit 0) on a scratch copy with the edit.
+usage: tools/sweep_preserving.py [-j N] [edit ids...]   -> preserving/RESULTS.json"""
 import json, os, shutil, subprocess, sys, tempfile
+from concurrent.futures import ThreadPoolExecutor
 HERE = os.path.dirname(os.path.dirname(os.path.abspath(__file__)))
 PD = os.path.join(HERE, "preserving")
-res = {}
-bad = 0
-for pid in sorted(d for d in os.listdir(PD) if os.path.isdir(os.path.join(PD, d))):
+args = sys.argv[1:]
+jobs = 3
+if args[:1] == ["-j"]:
+    jobs = int(args[1]); args = args[2:]
+res_path = os.path.join(PD, "RESULTS.json")
+res = json.load(open(res_path)) if (args and os.path.exists(res_path)) else {}
+ids = args or sorted(d for d in os.listdir(PD) if os.path.isdir(os.path.join(PD, d)))
+
+
+def one(pid):
     meta = json.load(open(os.path.join(PD, pid, "meta.json")))
-    tmp = tempfile.mkdtemp(prefix=f"pres-{pid}-")
+    tmp = tempfile.mkdtemp(prefix=f"pres-{pid[:12]}-")
+    out, logs = {}, []
     try:
         shutil.copytree("/repo/py_ecc", os.path.join(tmp, "py_ecc"))
         r = subprocess.run(["patch", "-p1", "-s", "-d", tmp, "-i", os.path.join(PD, pid, "patch.diff")], capture_output=True, text=True)
         assert r.returncode == 0, (pid, r.stdout, r.stderr)
-        out = {}
         for p in meta["properties"]:
             env = dict(os.environ, PY_ECC_REPO=tmp, VERIF_EVIDENCE_DIR=os.path.join(tmp, "ev"), VERIF_REPLAY_DIR=os.path.join(tmp, "rp"))
-            pr = subprocess.run(["./check", p], cwd=HERE, capture_output=True, text=True, env=env)
+            pr = subprocess.run(["./check", p, "--jobs", "6"], cwd=HERE, capture_output=True, text=True, env=env)
             out[p] = pr.returncode
             if pr.returncode != 0:
-                bad += 1
-                print(pr.stdout[-1500:])
-        res[pid] = out
-        print(pid, out, flush=True)
+                logs.append(pr.stdout[-1500:])
     finally:
         shutil.rmtree(tmp, ignore_errors=True)
-json.dump(res, open(os.path.join(PD, "RESULTS.json"), "w"), indent=1, sort_keys=True)
-print("false alarms:", bad)
+    return pid, out, logs
+
+
+bad = 0
+with ThreadPoolExecutor(max_workers=jobs) as ex:
+    for pid, out, logs in ex.map(one, ids):
+        res[pid] = out
+        bad += sum(1 for v in out.values() if v != 0)
+        for l in logs:
+            print(l)
+        print(pid, out, flush=True)
+        json.dump(res, open(res_path, "w"), indent=1, sort_keys=True)
+print("checks that did not exit 0:", bad)
 sys.exit(1 if bad else 0)
